@@ -314,11 +314,56 @@ theorem interp_rd_amt {dev : Device} {st : RState} {w : World} {I} (hM : Match s
 /-- The three properties `Amt.Good` asks of a labware. -/
 def GoodLab (L : Labware) : Prop := C02.LabValid L ∧ CompValid L ∧ Mixed L
 
-/-- A completed run of `ad dst j v carry` micro-operations (positive volume, carried composition normalised):
+/-- Adding volume 0 (with whatever composition) keeps the fractions of the addressed well summing to what they
+    summed to: `combine v₀ c 0 c' = c` up to components of fraction 0. -/
+theorem fracSum_addStep_zero (L L' : Labware) (i : Nat) (cB : Comp) (hL : CompValid L) (hi : i < L.vols.length)
+    (h : L.addStep i 0 (some cB) = .ok L') : fracSum L' i = fracSum L i := by
+  obtain ⟨_, hc⟩ := Mix.addStep_some h
+  have hndw : ((L.wellComp i).map (·.1)).Nodup := Mix.wc_keys_nodup _ _ hL.keys_nodup
+  have hnd : ((Labware.combine (L.vol i) (L.wellComp i) 0 cB).map (·.1)).Nodup :=
+    Mix.nodup_keys_combine _ _ _ _ hndw
+  rw [fracSum_eq, fracSum_eq, hc, Mix.colSum_setAll _ _ _ _ hL.lens hi hnd]
+  have h1 : ((Labware.combine (L.vol i) (L.wellComp i) 0 cB).map (·.1)).map (Mix.fracC L.comp i)
+      = ((Labware.combine (L.vol i) (L.wellComp i) 0 cB).map (·.1)).map (Mix.csum (L.wellComp i)) := by
+    apply List.map_congr_left
+    intro k _
+    exact (Mix.csum_wc L.comp i hL.keys_nodup hL.nonneg k).symm
+  rw [h1, Mix.sum_csum_keys _ _ hnd (fun k hk => Mix.keys_subset_combine _ _ _ _ k hk)]
+  have h2 : Mix.total (L.wellComp i) = Mix.colSum L.comp i := Mix.total_wc L.comp i hL.nonneg
+  by_cases h0 : L.vol i + 0 = 0
+  · have : Labware.combine (L.vol i) (L.wellComp i) 0 cB = L.wellComp i := by
+      rw [Mix.combine_eq, if_pos h0]
+    rw [this, h2]; ring
+  · rw [Mix.total_combine _ _ _ _ h0, h2]
+    have hv0 : L.vol i ≠ 0 := by intro e; apply h0; rw [e]; ring
+    field_simp
+    ring
+
+theorem mixed_addStep_zero {L L' : Labware} {i : Nat} {cB : Comp} (hM : Mixed L) (hL : CompValid L)
+    (hi : i < L.vols.length) (h : L.addStep i 0 (some cB) = .ok L') : Mixed L' := by
+  obtain ⟨hvols, hcomp⟩ := Mix.addStep_some h
+  intro j hj
+  have hj' : j < L.vols.length := by rw [hvols, List.length_set] at hj; exact hj
+  by_cases hji : j = i
+  · subst hji
+    have hfs := fracSum_addStep_zero L L' j cB hL hj' h
+    have hvj : L'.vol j = L.vol j := by
+      unfold Labware.vol; rw [hvols, getD_set_self _ _ _ _ hj']
+      unfold Labware.vol; ring
+    rw [hfs, hvj]
+    exact hM j hj'
+  · have hfs : fracSum L' j = fracSum L j := by
+      rw [fracSum_eq, fracSum_eq, hcomp, colSum_setAll_ne _ _ _ _ _ hji]
+    have hvj : L'.vol j = L.vol j := by
+      unfold Labware.vol; rw [hvols, getD_set_ne _ _ _ _ _ hji]
+    rw [hfs, hvj]
+    exact hM j hj'
+
+/-- A completed run of `ad dst j v carry` micro-operations (carried composition normalised when the volume is positive):
     every real well of the destination holds what it held plus `count × v × carry`; the labware stays good. -/
-theorem exec_ads_amt (dst : Nat) (v : Rat) (hv : 0 < v) :
+theorem exec_ads_amt (dst : Nat) (v : Rat) (hv : 0 ≤ v) :
     ∀ (js : List Nat) (w w1 : World) (D0 : Labware), w.labs[dst]? = some D0 → GoodLab D0 →
-      (∀ j ∈ js, j < D0.vols.length) → (∀ p ∈ w.carry, 0 ≤ p.2) → Mix.total w.carry = 1 →
+      (∀ j ∈ js, j < D0.vols.length) → (∀ p ∈ w.carry, 0 ≤ p.2) → (0 < v → Mix.total w.carry = 1) →
       w.exec (js.map fun j => Micro.ad dst j v .carry) = (w1, none) →
       ∃ Dn, w1.labs = w.labs.set dst Dn ∧ GoodLab Dn ∧ Dn.vols.length = D0.vols.length
         ∧ ∀ j k, amount Dn j k = amount D0 j k + (js.count j : Rat) * (v * compOf w.carry k) := by
@@ -348,14 +393,17 @@ theorem exec_ads_amt (dst : Nat) (v : Rat) (hv : 0 < v) :
       obtain ⟨hge, hvols, hmin, hmax, hname, hgeom, _⟩ := Labware.addStep_fields hstep
       have hlen : L'.vols.length = D0.vols.length := by rw [hvols, List.length_set]
       have hG' : GoodLab L' :=
-        ⟨C02.addStep_valid D0 L' j v (some w.carry) (le_of_lt hv) hD0v hstep,
-         addStep_compValid D0 L' j v (some w.carry) hD0c (le_of_lt hv) hvol
+        ⟨C02.addStep_valid D0 L' j v (some w.carry) hv hD0v hstep,
+         addStep_compValid D0 L' j v (some w.carry) hD0c hv hvol
            (by intro cB hcB; cases hcB; exact hcnn) hstep,
-         mixed_addStep hD0m hD0c hj hv hvol hctot hcnn hstep⟩
+         by
+           rcases lt_or_eq_of_le hv with hpos | hz
+           · exact mixed_addStep hD0m hD0c hj hpos hvol (hctot hpos) hcnn hstep
+           · subst hz; exact mixed_addStep_zero hD0m hD0c hj hstep⟩
       have hD' : (w.setLab dst L').labs[dst]? = some L' := getElem?_setLab_self hD
       obtain ⟨Dn, hlabs, hGn, hlenn, hamt⟩ := ih (w.setLab dst L') w1 L' hD' hG'
         (fun j' hj' => by rw [hlen]; exact hjs j' (List.mem_cons_of_mem _ hj')) hcnn hctot h
-      obtain ⟨hamount, hfrac⟩ := addStep_amount D0 L' j v w.carry hD0c hj (le_of_lt hv) hvol hstep
+      obtain ⟨hamount, hfrac⟩ := addStep_amount D0 L' j v w.carry hD0c hj hv hvol hstep
       refine ⟨Dn, ?_, hGn, by rw [hlenn, hlen], fun j' k => ?_⟩
       · rw [hlabs]; simp only [World.setLab, List.set_set]
       · rw [hamt j' k]
